@@ -52,7 +52,7 @@ func main() {
 func cmdFn(args []string) {
 	fs := flag.NewFlagSet("fn", flag.ExitOnError)
 	repo := fs.String("repo", "/repo", "repository root")
-	tmo := fs.Int("t", 10000, "per-obligation timeout (ms)")
+	tmo := fs.Int("t", 30000, "per-obligation timeout (ms)")
 	keep := fs.Bool("keep", false, "keep SMT scripts in /tmp/govc-smt")
 	verbose := fs.Bool("v", false, "print every obligation")
 	explain := fs.Bool("explain", false, "for undecided obligations, show a model of the quantifier-free part")
@@ -219,6 +219,7 @@ func (p *Program) runJobsL(fns []*ssa.Function, lemmas []*Contract, cfg SolverCf
 		o      *Obligation
 		script string
 		split  []string
+		sliced []string
 	}
 	var pfs []pf
 	for i, j := range jobs {
@@ -227,6 +228,9 @@ func (p *Program) runJobsL(fns []*ssa.Function, lemmas []*Contract, cfg SolverCf
 				continue
 			}
 			q := pf{j: j, o: o, script: buildSingle(j, o, cfg.TimeoutMs, true)}
+			if o.Kind != "pre-sat" && len(j.Facts) > 400 {
+				q.sliced = append(q.sliced, buildSliced(j, o, 5000, 2))
+			}
 			for _, c := range splitCases(j) {
 				q.split = append(q.split, buildSingle(j, o, cfg.TimeoutMs, true, c...))
 			}
@@ -240,6 +244,25 @@ func (p *Program) runJobsL(fns []*ssa.Function, lemmas []*Contract, cfg SolverCf
 			defer wg.Done()
 			psem <- struct{}{}
 			defer func() { <-psem }()
+			// first a goal-directed slice of the hypotheses (sound: only drops facts); `unsat` settles it
+			for _, sl := range q.sliced {
+				tmp := &Obligation{Name: q.o.Name, Kind: q.o.Kind}
+				ctx, cancel := context.WithTimeout(context.Background(), 7*time.Second)
+				out, _ := runSolver(ctx, "z3-new", []string{"-in", "smt.array.extensional=false"}, sl)
+				cancel()
+				if os.Getenv("GOVC_PROGRESS") != "" {
+				a, _ := solverAnswer(out)
+				fmt.Fprintf(os.Stderr, "sliced %s: %d asserts -> %s\n", q.o.Name, strings.Count(sl, "(assert"), a)
+			}
+			if ans, _ := solverAnswer(out); ans == "unsat" && q.o.Kind != "pre-sat" {
+					tmp.Status = "proved"
+					q.o.Status, q.o.Solver = "proved", "z3-5.1.0-noext (sliced hypotheses)"
+					break
+				}
+			}
+			if q.o.Status == "proved" {
+				return
+			}
 			portfolioScript(q.j, q.o, q.script, cfg)
 			if q.o.Status == "unknown" && len(q.split) > 0 {
 				// all cases unsat => proved; any case sat => failed with that model
